@@ -278,6 +278,12 @@ class MMutGraph(MGraph):
     def successors(self, n):
         return iter(sorted(self._c._fanout.get(n, ())))
 
+    def has_edge(self, u, v):
+        return v in self._c._fanout.get(u, ())
+
+    def has_node(self, n):
+        return n in self._c._attrs
+
 
 def reference_connect_error(c, us, vs):
     """The legality rules of the property statement (C07); returns an error string or None."""
